@@ -16,10 +16,17 @@ def main():
     with open(sys.argv[1]) as f:
         plan = json.load(f)
     sys.meta_path[:] = [f for f in sys.meta_path if "editable" not in repr(f).lower()]
+    # the harness directory must not be importable from here: a product module named like a
+    # harness module (core, repo, lang ...) would be shadowed.  obs17 is loaded by file path.
+    here = os.path.dirname(os.path.abspath(__file__))
+    sys.path[:] = [p for p in sys.path if os.path.abspath(p or ".") != here]
     sys.path.insert(0, plan["tree"])
-    sys.path.insert(0, os.path.dirname(os.path.abspath(__file__)))
+    import importlib.util
+
+    spec = importlib.util.spec_from_file_location("obs17", os.path.join(here, "obs17.py"))
+    obs17 = importlib.util.module_from_spec(spec)
+    spec.loader.exec_module(obs17)
     os.chdir(plan["cwd"])
-    import obs17
 
     buf = io.StringIO()
     out = []
